@@ -320,6 +320,11 @@ Complete(s, t) ==
          (CASE g.k = "m" -> R(0, MRelease(b2, g.o))
             [] g.k = "r" -> R(0, RwAfterRelease([b2 EXCEPT !.rw[g.o+1].readers = @ \ {t}], g.o))
             [] g.k = "w" -> R(0, RwAfterRelease([b2 EXCEPT !.rw[g.o+1].writer = -1], g.o)))
+    \* the holder panics while holding a Mutex guard (caught inside the task): released and poisoned
+    [] o.k = "punlock" ->
+         LET g == s.gd[t+1][o.w+1]
+             b2 == [base EXCEPT !.gd[t+1][o.w+1] = NoGuard, !.mpz[g.o+1] = TRUE] IN
+         R(0, MRelease(b2, g.o))
     [] o.k = "unlock_if" ->
          LET g == s.gd[t+1][o.w+1]
              b2 == [base EXCEPT !.gd[t+1][o.w+1] = NoGuard] IN
